@@ -30,7 +30,8 @@ REQUIRE = {'sets_whose_first_language_is_empty': 30, 'dfxp_documents_round_tripp
            'default_lang_env_used': 2, 'sets_written_dfxp': 50, 'sets_written_sami': 50, 'webvtt_lang_option': 30,
            'force_option': 20, 'sami_secondary_language_syncs_inserted': 30, 'reader_lang_option': 20,
            'languages_compared': 300, 'hash_seeds_used': 2, 'webvtt_lang_absent': 10,
-           'multi_language_sets_whose_cues_share_style_classes': 100}
+           'multi_language_sets_whose_cues_share_style_classes': 100,
+           'sami_clearing_paragraphs_checked': 200}
 SHARDS = {'quick': 8, 'thorough': 16}
 
 
@@ -366,6 +367,19 @@ def check(case, ctx):
                 first_seen.append(p['lang'])
             if not p['blank']:
                 per.setdefault(p['lang'], []).append((s['start_ms'], dump.norm_line(' '.join(p['lines']))))
+    # a clearing (blank) paragraph belongs to the language whose cue ends there
+    blanks = {}
+    for s_ in doc['syncs']:
+        for p in s_['ps']:
+            if p['blank']:
+                blanks.setdefault(p['lang'], []).append(s_['start_ms'])
+    for l in spec['langs']:
+        ends = {c['end'] // 1000 for c in l['captions']}
+        stray = [ms for ms in blanks.get(l['lang'], []) if ms not in ends]
+        ctx.count('sami_clearing_paragraphs_checked', len(blanks.get(l['lang'], [])))
+        if stray:
+            fails.append({'what': 'a clearing paragraph is filed under a language none of whose cues ends at that time',
+                          'lang': l['lang'], 'at_ms': stray[:5], 'cue_ends_ms': sorted(ends)[:10]})
     for l in spec['langs'][1:]:
         for c in l['captions']:
             if c['start'] // 1000 not in primary_starts:
